@@ -37,6 +37,7 @@ def arma2psd_task(which, dtype):
         dom = tc.smt()
         I = tc.interp()
         hints = {"which": which, "dtype": dtype}
+        tc.native = ("arma2psd", hints)
 
         def thunk(I):
             n = dom.input_int("NFFT")
@@ -90,6 +91,7 @@ def scale_task(datatype):
             st = P.interp.st
             o = st["o"]
             hints = {"datatype": datatype}
+            tc.native = ("scale", hints)
             if P.outcome != "return":
                 P.fail("no-exception", "scale raises %s" % P.value.exc, replay=("scale", hints))
                 return
@@ -109,6 +111,7 @@ def speriodogram_scale_task(datatype):
         dom = tc.smt()
         I = tc.interp(stubs=funcs.window_stub(dom))
         hints = {"datatype": datatype}
+        tc.native = ("speriodogram_scale", hints)
 
         def thunk(I):
             N = dom.input_int("N")
@@ -166,6 +169,7 @@ def relscale_task(cname, datatype):
         dom = tc.smt()
         I = tc.interp(stubs=funcs.refined_stubs(dom))
         hints = {"cls": cname, "datatype": datatype}
+        tc.native = ("relscale", hints)
 
         def thunk(I):
             o1, o2 = two_objects(I, dom, cname, datatype, "scale")
@@ -198,6 +202,7 @@ def relfs_task(cname, datatype):
         dom = tc.smt()
         I = tc.interp(stubs=funcs.refined_stubs(dom))
         hints = {"cls": cname, "datatype": datatype}
+        tc.native = ("relfs", hints)
 
         def thunk(I):
             o1, o2 = two_objects(I, dom, cname, datatype, "sampling")
